@@ -24,6 +24,13 @@ RULE = ("version-1 certificates over freshly generated secp256k1 keys: random ac
         "accepts' is required. Pairing runs check that corrupting elements off a target's path "
         "does not change that target's verdict. distinct = (graph shape, targets, corruption "
         "kind, on/off path); non-trivial = chain depth >= 2 or a corruption")
+RULE_ADDED = (
+              'Also: every loaded certificate object is validated again (same root, an unrelated '
+              'root, the first root) and has an element of a valid path replaced through add_element '
+              '(broken, then put back); bit flips drawn half of the time from the ends of a datum '
+              'and from the six structural bytes of the DER signature; a third of the shards under '
+              'python -O ')
+RULE = RULE + " " + RULE_ADDED.strip()
 ASSUMPTIONS = [
     "oracle: pv/oracle/certv1.py (own secp256k1 arithmetic, ECDSA by cryptography/OpenSSL); "
     "signing by the pure-Python ecdsa package; the code verifies with libsecp256k1",
